@@ -357,7 +357,15 @@ func TestC05Corpus(t *testing.T) {
 
 				rebuilt.WriteString(src[last:])
 
-				if allOK && runner == RunTest {
+				// quick tier: the file rebuilt from its formatted fragments is re-run for a
+				// PRNG-chosen half of the files (every fragment's formatter clauses are
+				// always checked)
+				rerun := vh.Tier() != "quick" || vh.Rand("c05-corpus-frag/"+rel).Intn(2) == 0
+				if !rerun {
+					r.Count("fragments.files_rerun_not_chosen_in_quick_tier", 1)
+				}
+
+				if allOK && runner == RunTest && rerun {
 					fr := runTestFile(rebuilt.String(), filepath.Base(rel), arena, false)
 					r.Count("fragments.files_rerun", 1)
 
@@ -428,8 +436,8 @@ func TestC05Corpus(t *testing.T) {
 		// how the corpus is sharded
 		rng := vh.Rand("c05-corpus/" + rel)
 
-		// quick tier: a PRNG-chosen third of the files gets decorated variants
-		if vh.Tier() == "quick" && rng.Intn(3) != 0 {
+		// quick tier: a PRNG-chosen quarter of the files gets decorated variants
+		if vh.Tier() == "quick" && rng.Intn(4) != 0 {
 			r.Count("decorated.files_not_chosen_in_quick_tier", 1)
 
 			continue
@@ -558,15 +566,20 @@ func runCorpusShards(t *testing.T, r *vh.Report, arena, root string) {
 		err error
 	}
 
-	res := make([]result, workers)
+	// more shards than workers: a pool pulls them, so one heavy shard (a blocking
+	// example, a slow test directory) does not leave the other workers idle
+	shards := 4 * workers
+	res := make([]result, shards)
+	sem := make(chan struct{}, workers)
 
 	var wg sync.WaitGroup
 
-	for i := 0; i < workers; i++ {
+	for i := 0; i < shards; i++ {
 		wg.Add(1)
+		sem <- struct{}{}
 
 		go func(i int) {
-			defer wg.Done()
+			defer func() { <-sem; wg.Done() }()
 
 			wa := filepath.Join(arena, fmt.Sprintf("shard-%d", i))
 			_ = os.MkdirAll(wa, 0o755)
@@ -576,7 +589,7 @@ func runCorpusShards(t *testing.T, r *vh.Report, arena, root string) {
 			cmd := exec.Command(selfExe, "-test.run", "^TestC05Corpus$", "-test.timeout", "0", "-test.count", "1")
 			wh := filepath.Join(wa, "home") // workers must not share a profile directory
 			_ = os.MkdirAll(wh, 0o755)
-			cmd.Env = append(os.Environ(), fmt.Sprintf("FMT5_SHARD=%d/%d", i, workers), "VERIF_OUT="+res[i].out, "VERIF_ARENA="+wa, "VERIF_HOME="+wh)
+			cmd.Env = append(os.Environ(), fmt.Sprintf("FMT5_SHARD=%d/%d", i, shards), "VERIF_OUT="+res[i].out, "VERIF_ARENA="+wa, "VERIF_HOME="+wh)
 			cmd.Dir = root
 			res[i].log, res[i].err = cmd.CombinedOutput()
 		}(i)
@@ -585,6 +598,7 @@ func runCorpusShards(t *testing.T, r *vh.Report, arena, root string) {
 	wg.Wait()
 
 	r.Count("shards.workers", int64(workers))
+	r.Count("shards.total", int64(shards))
 
 	for i := range res {
 		raw, err := os.ReadFile(res[i].out)
